@@ -10,10 +10,11 @@ type Driver func(r *rec.Rec, rng *rand.Rand, run, ops int, variant string)
 
 func Drivers() map[string]Driver {
 	return map[string]Driver{
-		"xlist": DriveXList,
-		"deque": DriveDeque,
-		"tree":  DriveTree,
-		"heap":  DriveHeap,
-		"pq":    DrivePQ,
+		"xlist":  DriveXList,
+		"deque":  DriveDeque,
+		"tree":   DriveTree,
+		"cursor": DriveCursor,
+		"heap":   DriveHeap,
+		"pq":     DrivePQ,
 	}
 }
